@@ -471,6 +471,10 @@ def check(prop, tier, root=DEFAULT_ROOT, **kw):
         ev = build_evidence(run, new, known, not_judged)
         os.makedirs(os.path.join(VERIF, "evidence"), exist_ok=True)
         evpath = os.path.join(VERIF, "evidence", f"{prop}.json")
+        if os.environ.get("FXMC_NO_EVIDENCE") or os.path.abspath(root) != os.path.abspath(DEFAULT_ROOT):
+            # runs against a scratch root (seeded-change self-test) never overwrite the registered evidence
+            os.makedirs(os.path.join(VERIF, "build"), exist_ok=True)
+            evpath = os.path.join(VERIF, "build", f"evidence-{prop}-{os.getpid()}.json")
         # known findings: one line per finding entry (not per case), with the number of matched cases
         seen = {}
         for r, f in known:
